@@ -132,43 +132,6 @@ func init() {
 			}
 			return Tuple{termsArray(ex.dh(pub, priv)), Iface{}}
 		},
-		"github.com/lightninglabs/lightning-node-connect/mailbox.ekeMask": func(ex *Exec, g *Goroutine, cs *callSite, args []Value) Value {
-			e := ex.asPub(args[0])
-			pw := ex.sliceTerms(args[1])
-			a := ex.app("mask", 0, []*Term{e.id}, pw)
-			st := ex.idl()
-			for _, m := range st.masked {
-				if m.inner == e && keyOf(m.pw) == keyOf(pw) {
-					return ex.pubPtr(m)
-				}
-			}
-			m := &pubObj{id: ex.C.UF("maskpt", BV(64), e.id, ex.i64(int64(a.id))), inner: e, pw: pw}
-			st.masked = append(st.masked, m)
-			st.pubs = append(st.pubs, m)
-			return ex.pubPtr(m)
-		},
-		"github.com/lightninglabs/lightning-node-connect/mailbox.ekeUnmask": func(ex *Exec, g *Goroutine, cs *callSite, args []Value) Value {
-			me := ex.asPub(args[0])
-			pw := ex.sliceTerms(args[1])
-			st := ex.idl()
-			cand := me
-			if me.inner == nil {
-				// a parsed point: is it one of the masked points on the wire?
-				cand = nil
-				for _, m := range st.masked {
-					if ex.branch(ex.eqPoint(me, m), cs.pos) {
-						cand = m
-						break
-					}
-				}
-			}
-			if cand != nil {
-				if ex.branch(ex.eqBytes(cand.pw, pw), cs.pos) {
-					return ex.pubPtr(cand.inner)
-				}
-			}
-			return ex.pubPtr(ex.garbagePoint("unmask"))
-		},
 	}
 	cryptoNatives["(github.com/decred/dcrd/dcrec/secp256k1/v4.PublicKey).SerializeCompressed"] =
 		cryptoNatives["(*github.com/decred/dcrd/dcrec/secp256k1/v4.PublicKey).SerializeCompressed"]
